@@ -496,6 +496,7 @@ func report(p *Loaded, verif, prop, tier string, seed int, pc *PropConfig, resul
 		os.WriteFile(expFile, []byte(strings.Join(keep, "\n")+"\n"), 0o644)
 	}
 	missing := 0
+	var notGenerated []string
 	if data, err := os.ReadFile(expFile); err == nil {
 		for _, line := range strings.Split(string(data), "\n") {
 			line = strings.TrimSpace(line)
@@ -503,7 +504,13 @@ func report(p *Loaded, verif, prop, tier string, seed int, pc *PropConfig, resul
 				continue
 			}
 			if _, ok := byName[line]; !ok {
-				// S/R/A obligations that the simplifier removes entirely are not a loss
+				// a safety / range / unwinding / call-site-precondition obligation that is no longer
+				// generated means the operation is gone from the code: nothing is lost (the
+				// postconditions that depended on a removed call fail on their own).
+				if cl := oblClass(line); cl == "S" || cl == "R" || cl == "U" || cl == "P" {
+					notGenerated = append(notGenerated, line)
+					continue
+				}
 				missing++
 				name := line + " (baselined obligation no longer generated)"
 				if kf := isKnown(line); kf != nil {
@@ -573,6 +580,7 @@ func report(p *Loaded, verif, prop, tier string, seed int, pc *PropConfig, resul
 			"failed_obligations":         failures,
 			"known_findings_hit":         knownLines,
 			"baseline_missing":           missing,
+			"baseline_not_generated":     notGenerated,
 			"integer_semantics":          "bit-vectors of the Go width with wrap-around; arithmetic on Go int additionally carries R (no-wrap) obligations",
 			"unbound_contracts":          p.unbound,
 		},
@@ -600,6 +608,19 @@ func report(p *Loaded, verif, prop, tier string, seed int, pc *PropConfig, resul
 		return 1
 	}
 	return 0
+}
+
+// oblClass extracts the class letter(s) of an obligation name "<func>#<class>:<label>".
+func oblClass(name string) string {
+	i := strings.Index(name, "#")
+	if i < 0 {
+		return ""
+	}
+	rest := name[i+1:]
+	if j := strings.Index(rest, ":"); j >= 0 {
+		return rest[:j]
+	}
+	return rest
 }
 
 func replayConfirmed(path string) bool {
